@@ -243,15 +243,15 @@ namespace Givaro {
 #endif
             int index = tmp->u.index;
             if (BlocFreeList::TabSize[index] >= sizeof(int64_t)+newsize) return p;
-            GivMMRefCount::desallocate(p);
         }
-        else --(tmp->data[0]);  // -- two pointer on the bloc:
+        // -- allocate first: when no size class holds the request _allocate throws and p must be left as it is
         tmp = GivMMFreeList::_allocate( newsize+sizeof(int64_t) );
         tmp->data[0] = 1 ;
         if (oldsize !=0) {
             if (newsize <= oldsize) ::memcpy( &(tmp->data[1]), p, newsize );
             else ::memcpy( &(tmp->data[1]), p, oldsize );
         }
+        GivMMRefCount::desallocate(p); // -- give up this reference: frees the bloc if it was the only one
         return &(tmp->data[1]);
     }
 
